@@ -1,0 +1,14 @@
+//go:build verif
+
+package trust
+
+import (
+	"context"
+	"time"
+)
+
+// VerifValidate exposes Signer.validate (the expiry check made by Sign and
+// SignCMS) with an explicit current time.
+func (s Signer) VerifValidate(now time.Time) error {
+	return s.validate(context.Background(), now)
+}
